@@ -73,11 +73,28 @@ func chanPassed(fn *ssa.Function, idx int, call *ssa.CallCommon, sc *ssa.Functio
 // sendsOnParam: fn (transitively, through module helpers) sends on its idx-th
 // parameter. Returns the call/send instructions in fn that do so.
 func sendsOnParam(P *core.Program, fn *ssa.Function, idx int, depth int) []ssa.Instruction {
+	return sendsOnParamIn(P, fn, fn, idx, depth)
+}
+
+// localClosureOf: sc is a function literal declared inside owner (a `reject := func(…) error {…}`
+// that sees owner's parameters as captured variables)
+func localClosureOf(sc, owner *ssa.Function) bool {
+	for f := sc; f != nil; f = f.Parent() {
+		if f.Parent() == owner {
+			return true
+		}
+	}
+	return false
+}
+
+// sendsOnParamIn: the instructions of body (owner itself, or a function literal inside it) that send
+// on owner's idx-th parameter
+func sendsOnParamIn(P *core.Program, body, fn *ssa.Function, idx int, depth int) []ssa.Instruction {
 	if depth > 4 || idx >= len(fn.Params) {
 		return nil
 	}
 	var out []ssa.Instruction
-	an.Instrs(fn, func(in ssa.Instruction) {
+	an.Instrs(body, func(in ssa.Instruction) {
 		switch x := in.(type) {
 		case *ssa.Send:
 			if chanIs(fn, idx, x.Chan) {
@@ -92,6 +109,13 @@ func sendsOnParam(P *core.Program, fn *ssa.Function, idx int, depth int) []ssa.I
 		case *ssa.Call:
 			sc := an.StaticCallee(&x.Call)
 			if sc == nil || !P.InModule(sc) {
+				return
+			}
+			// a function literal of the owner that sends on the captured channel
+			if localClosureOf(sc, fn) {
+				if len(sendsOnParamIn(P, sc, fn, idx, depth+1)) > 0 {
+					out = append(out, in)
+				}
 				return
 			}
 			for _, i := range chanPassed(fn, idx, &x.Call, sc) {
@@ -464,6 +488,22 @@ func runGateOneNotice(c *core.Ctx) {
 		// busy (select with a default case) loses it
 		if call, ok := s.(*ssa.Call); ok {
 			sc := an.StaticCallee(&call.Call)
+			if sc != nil && localClosureOf(sc, fn) {
+				// the literal's own sends: helpers it hands the captured channel to
+				for _, s2 := range sendsOnParamIn(P, sc, fn, g.sendIdx, 0) {
+					if c2, isC := s2.(*ssa.Call); isC {
+						sc2 := an.StaticCallee(&c2.Call)
+						for _, i := range chanPassed(fn, g.sendIdx, &c2.Call, sc2) {
+							if sc2 != nil && mayDropOnParam(P, sc2, i, 0) {
+								droppable = append(droppable, fmt.Sprintf("%s at %s", sc2.Name(), P.Pos(c2.Pos())))
+							}
+						}
+					}
+					if sel, isSel := s2.(*ssa.Select); isSel && !sel.Blocking {
+						droppable = append(droppable, "select with default at "+P.Pos(sel.Pos()))
+					}
+				}
+			}
 			for _, i := range chanPassed(fn, g.sendIdx, &call.Call, sc) {
 				if sc != nil && mayDropOnParam(P, sc, i, 0) {
 					droppable = append(droppable, fmt.Sprintf("%s at %s", sc.Name(), P.Pos(call.Pos())))
@@ -550,6 +590,9 @@ func runGateOneNotice(c *core.Ctx) {
 										isRej = true
 									}
 								}
+							} else if sc != nil && localClosureOf(sc, fn) && g.sendIdx >= 0 && rejectsOnceIn(P, sc, fn, g.sendIdx, isCtor) {
+								// … or a function literal of the read function doing the same on the captured channel
+								isRej = true
 							}
 						}
 						if !isRej {
@@ -911,8 +954,13 @@ func runWritePath(c *core.Ctx) {
 // rejectsOnce: every entry→return path of helper h passes exactly one send on its idx-th parameter,
 // outside loops, and what is sent there is built by one of the protocol's rejection constructors.
 func rejectsOnce(P *core.Program, h *ssa.Function, idx int, isCtor func(string) bool) bool {
+	return rejectsOnceIn(P, h, h, idx, isCtor)
+}
+
+// rejectsOnceIn: the same for a function literal h of owner that sends on owner's captured channel
+func rejectsOnceIn(P *core.Program, h, owner *ssa.Function, idx int, isCtor func(string) bool) bool {
 	sends := map[ssa.Instruction]bool{}
-	for _, s := range sendsOnParam(P, h, idx, 0) {
+	for _, s := range sendsOnParamIn(P, h, owner, idx, 0) {
 		call, ok := s.(*ssa.Call)
 		if !ok || an.InLoop(s.Block()) {
 			return false
